@@ -1326,8 +1326,10 @@ func (e *lexEnv) readerCase(ctx *Ctx, c *lexCodec, doc []byte, h lexHints, origi
 	ctx.current = line
 	d := lexDecode(ctx, c, doc, h, line)
 	outcome := strings.SplitN(d.ans, " ", 2)[0]
+	// C04 speaks of the library's own documents and of conformant documents produced elsewhere (own, hand-written
+	// forms); what the readers make of MUTATED documents is C02 / C18 business
 	props := "C02,C18"
-	if outcome == "ok" {
+	if outcome == "ok" && origin != "mutated" {
 		props = "C04,C18,C02"
 	}
 	ctx.Add(line, d.ans, true, props)
@@ -1829,6 +1831,22 @@ func (e *lexEnv) handDocs() []lexDoc {
 			jraw(m.tag, "Integer", raw, m.h)
 		}
 	}
+	// text as another producer may escape it: JSON \u escapes incl. surrogate pairs (valid, unpaired, reversed), the
+	// short escapes, escaped line separators; XML character references and attribute-value normalisation
+	for _, raw := range []string{`"\u0041"`, `"\ud83d\ude00"`, `"\uD83D\uDE00"`, `"\ud800"`, `"\udc00\ud800"`, `"\ud83dx"`, `"x\ude00"`, `"\u2028\u2029"`, `"\u0000"`, `"\u001f\u007f\u0080\u0085"`, `"\/"`,
+		`"\b\f\n\r\t"`, `"\"\\"`, `"\ufffe\uffff\ufffd"`, `"\\u0041"`, `"\u00e9\u00E9é"`, `"\ud7ff\ue000"`, `"\udbff\udfff"`} {
+		jraw("0x540001", "TextString", raw, none)
+		jraw("UniqueIdentifier", "TextString", raw, none)
+	}
+	jraw("CryptographicAlgorithm", "Enumeration", `"\u0041ES"`, none)
+	jraw("CryptographicUsageMask", "Integer", `"Sign\u007cVerify"`, hM(lexTagUsageMask, 0))
+	jraw("0x540001", "ByteString", `"\u0041B"`, none)
+	for _, v := range []string{`&#x1F600;`, `&#128512;`, `&#xD;&#xA;&#x9;`, "a\nb\tc\r\nd", `&#x7F;&#x85;&#x2028;&#xFFFD;`, `&lt;&gt;&amp;&quot;&apos;`, `&#x41;ES`, `&#65;&#x42;`, `&#xD7FF;&#xE000;&#x10FFFF;`, `&amp;amp;`, `&#38;lt;`} {
+		addX(`<TTLV tag="0x540001" type="TextString" value="`+v+`"/>`, none)
+		addX(`<RequestMessage><UniqueIdentifier type="TextString" value="`+v+`"/><BatchCount type="Integer" value="2"/></RequestMessage>`, none)
+	}
+	addX(`<CryptographicAlgorithm type="Enumeration" value="&#x41;ES"/>`, none)
+	addX(`<TTLV tag="0x540001" type="ByteString" value="&#x41;B"/>`, none)
 	// ---- element structure: XML -------------------------------------------------------------------------
 	iv := `type="Integer" value="1"`
 	for _, d := range []string{
@@ -2328,7 +2346,9 @@ func lexRun(ctx *Ctx) {
 	}
 	for _, n := range []string{"RequestMessage", "RequestHeader", "BatchItem", "RequestPayload", "TemplateAttribute", "Attribute", "BatchCount", "MaximumResponseSize", "MaximumItems", "IterationCount", "UniqueIdentifier", "AttributeValue", "State", "CryptographicAlgorithm", "CryptographicUsageMask", "StorageStatusMask"} {
 		if e.tagByName[n] == 0 {
-			ctx.Res.Fail("lex: tag name " + n + " used by the hand-written documents is not registered")
+			// the hand-written documents spell this name: without it they still are valid test inputs (an unknown element
+			// name), they only test something else; the floors on the accepted hand documents tell when too many are lost
+			ctx.Res.Count("hand.tag-name-not-registered:" + n)
 		}
 	}
 	if len(ctx.Replay) > 0 {
@@ -2411,7 +2431,7 @@ func lexRun(ctx *Ctx) {
 	}
 	// floors: the classes of input this engine exists for were all exercised
 	for k, min := range map[string]int{"w.xml.long": 20, "w.json.long": 20, "text.wide-alphabet": 50, "w.xml.readback-positional": 20, "w.json.readback-positional": 20,
-		"zone.xml.local.ok": 50, "zone.json.in.ok": 50, "r.xml.own-positional.ok": 50, "r.json.own-positional.ok": 50, "r.xml.hand.ok": 100, "r.json.hand.ok": 100} {
+		"zone.xml.local.ok": 50, "zone.json.in.ok": 50, "r.xml.own-positional.ok": 50, "r.json.own-positional.ok": 50, "r.xml.hand.ok": 1000, "r.json.hand.ok": 1000} {
 		if ctx.Res.Distribution[k] < min {
 			ctx.Res.Fail(fmt.Sprintf("lex: only %d cases of class %s (floor %d)", ctx.Res.Distribution[k], k, min))
 		}
